@@ -5,6 +5,7 @@ CONSTANTS
   MaxE = 3
   StartVals = {0, 1, 3}
   Defaults = {0, 1}
+  FamIdx = {1, 2, 3, 4, 5, 6}
   Bounds <- BoundsInf12
   FullUpTo = 1
   SampleT = 8
